@@ -196,11 +196,46 @@ def dispatch_shard(args):
     return part.done()
 
 
+def optimised_child(tier):
+    """Runs inside ``python -O`` (the method template guards its slices with ``assert``): every
+    method x every base x single-digit deviations, and one listed bank per method through IBAN."""
+    part = par.Part()
+    implemented = set(lib_methods())
+    for m in lib_methods():
+        for base in bases_for(m):
+            for acct in deviations(base, 1):
+                part.count(("-O", m, acct))
+                ok, sig, rv, lv = judge_method(m, acct)
+                if not ok:
+                    part.violation(sig + " [python -O]", {"kind": "c07m", "method": m, "account": acct,
+                                                          "interpreter": "-O"}, rv, lv)
+    from . import c14
+    pl = pools()
+    for m in sorted(pl):
+        code = c14.bank_for_method(m)
+        if code:
+            for a in pl[m][0][:3] + pl[m][1][:3]:
+                part.count(("-O", code, a))
+                ok, sig, exp, obs = judge_dispatch(code, a, implemented)
+                if not ok:
+                    part.violation(sig + " [python -O]", {"kind": "c07d", "bank_code": code, "account": a,
+                                                          "interpreter": "-O"}, exp, obs)
+    part.stat("optimised_interpreter_runs")
+    return part.done()
+
+
 def shard(args):
+    if args[0] == "python -O":
+        return par.in_interpreter(["-O"], "mc.props.c07", "optimised_child", args[1])
     return {"m": method_shard, "p": product_shard, "d": dispatch_shard}[args[0]](args)
 
 
 def replay(case: dict) -> dict:
+    if case.get("interpreter") == "-O":
+        part = par.in_interpreter(["-O"], "mc.props.c07", "optimised_child", "quick")
+        hit = [v for v in part["violations"] if v["case"].get("account") == case.get("account")
+               and v["case"].get("method") == case.get("method")]
+        return {"ok": not hit, "observed": hit[0]["observed"] if hit else None, "interpreter": "python -O"}
     if case["kind"] == "c07m":
         ok, sig, rv, lv = judge_method(case["method"], case["account"])
         return {"ok": ok, "signature": sig, "expected": rv, "observed": lv}
@@ -215,6 +250,7 @@ def main(tier: str) -> int:
     if tier == "thorough":
         shards += [("p", m, pos, tier) for m, pos in bbk.SMALL_SUPPORT.items() if m in methods]
     codes = sorted({k[1] for k in lookup.by_key() if k[0] == "DE"})
+    shards.append(("python -O", tier))
     chunk = 120
     shards += [("d", codes[i:i + chunk], tier) for i in range(0, len(codes), chunk)]
     par.run_shards(run, shard, shards)
